@@ -517,11 +517,11 @@ def _layout(e, env):
     return None
 
 
-def _r4(ctx):
+def _r4(ctx, rule="R-C10-4"):
     """Per-point curve values spread over the hysteresis table must be laid out like the table's index
     (hysteresis_index outermost, assessment_point_index fastest)."""
     prog = ctx.prog
-    ctx.rule("R-C10-4", floor=2, what="per-point values spread over the hystereses follow the index layout (hysteresis-major, point fastest)")
+    ctx.rule(rule, floor=2, what="per-point values spread over the hystereses follow the index layout (hysteresis-major, point fastest)")
     f = prog.func("pylife.strength.fkm_nonlinear.damage_calculator:DamageCalculatorPRAM._initialize_P_RAM_Z_index")
     # level order of the table index as asserted by the calculator
     init = prog.func("pylife.strength.fkm_nonlinear.damage_calculator:DamageCalculatorPRAM._initialize_collective_index")
